@@ -143,7 +143,7 @@ def seqA(E, k, w, a, L, steps):
 
 def harnesses(tier):
     q = tier == "quick"
-    T = 600 if q else 2400
+    T = 600 if q else 900
     hs = []
     for k, N in ([(2, 4), (3, 3)] if q else [(2, 6), (3, 4)]):
         hs.append(H("adjB_k%d" % k, adjB, dict(k=k, N=N), FUNCS,
